@@ -25,21 +25,47 @@ def copies_of(item):
 
 
 def assign(delivers, remaining):
-    """each DELIVER item must receive a non-empty sub-multiset of its copies; nothing may be left over"""
+    """each DELIVER item must receive a non-empty sub-multiset of its copies; nothing may be left over.
+
+    Feasibility of  x_i <= C_i (as multisets), x_i non-empty, sum_i x_i = R :
+      (1) for every string k, R[k] <= sum_i C_i[k]   (what arrived fits into what was allowed), and
+      (2) the items can each be given ONE arrived copy of a string they allow, no string used more
+          often than it arrived (a bipartite matching of items into the R[k] slots of the strings);
+    once every item holds its mandatory copy, the rest of R fits by (1).  (2) is decided with
+    augmenting paths; the earlier exhaustive search was exponential in the number of items of a pool."""
+    rem = {k: v for k, v in remaining.items() if v > 0}
     if not delivers:
-        return sum(remaining.values()) == 0
-    cnt = Counter(delivers[0])
-    keys = list(cnt)
-    ranges = [range(0, min(cnt[k], remaining.get(k, 0)) + 1) for k in keys]
-    for choice in itertools.product(*ranges):
-        if sum(choice) == 0:
-            continue
-        rem = Counter(remaining)
-        for k, n in zip(keys, choice):
-            rem[k] -= n
-        if assign(delivers[1:], rem):
-            return True
-    return False
+        return not rem
+    caps = [Counter(d) for d in delivers]
+    total = Counter()
+    for c in caps:
+        total.update(c)
+    for k, v in rem.items():
+        if v > total.get(k, 0):
+            return False
+    if sum(rem.values()) < len(delivers):
+        return False
+    used = {k: [] for k in rem}          # string -> items currently holding one of its slots
+
+    def try_item(i, seen):
+        for k in caps[i]:
+            if k not in rem or k in seen:
+                continue
+            seen.add(k)
+            if len(used[k]) < rem[k]:
+                used[k].append(i)
+                return True
+            for pos, j in enumerate(used[k]):
+                if try_item(j, seen):
+                    used[k][pos] = i
+                    return True
+        return False
+    import sys
+    sys.setrecursionlimit(max(sys.getrecursionlimit(), 10000))
+    for i in range(len(delivers)):
+        if not try_item(i, set()):
+            return False
+    return True
 
 
 def match_group(impl, spec, is_cb=False):
